@@ -697,7 +697,7 @@ fn expr_json(e: &rustc_ast::Expr, depth: usize) -> String {
 impl<'a, 'tcx, 'ast> rustc_ast::visit::Visitor<'ast> for FmtVisitor<'a, 'tcx> {
     fn visit_expr(&mut self, e: &'ast rustc_ast::Expr) {
         if let rustc_ast::ExprKind::FormatArgs(fa) = &e.kind {
-            let (file, line, col) = self.ex.loc(fa.span);
+            let (file, line, col) = self.ex.loc(e.span);
             // outermost user-written macro
             let mut mac = String::new();
             for ed in e.span.macro_backtrace() {
